@@ -25,3 +25,5 @@ pub use countgrams::{
     CountVectorizer, CountVectorizerParams, CountVectorizerValidParams, Tokenizer,
 };
 pub use error::{PreprocessingError, Result};
+#[cfg(linfa_verif)]
+pub use countgrams::verif_hooks_c17;
